@@ -570,7 +570,10 @@ impl<S: BitmapSlice + Send + Sync> PassthroughFs<S> {
         flags: i32,
         mode: u32,
     ) -> io::Result<Option<File>> {
-        match openat(dir, pathname, flags | libc::O_CREAT | libc::O_EXCL, mode) {
+        // O_CREAT | O_EXCL keeps a symbolic link in the last component from being followed, but the
+        // kernel ignores both when the client's flags carry O_PATH: always ask for O_NOFOLLOW too.
+        let flags_excl = flags | libc::O_CREAT | libc::O_EXCL | libc::O_NOFOLLOW;
+        match openat(dir, pathname, flags_excl, mode) {
             Ok(file) => Ok(Some(file)),
             Err(err) => {
                 // Ignore the error if the file exists and O_EXCL is not present in `flags`.
